@@ -6,5 +6,5 @@ export CARGO_NET_OFFLINE=true
 cargo build --release --offline --no-default-features --features std --target-dir target 2>&1 | tail -1
 cargo build --release --offline --no-default-features --features nostd_marker --target-dir target-nostd 2>&1 | tail -1
 cargo build --release --offline --no-default-features --features serialize --target-dir target-ser 2>&1 | tail -1
-(cd sendsync && cargo build --offline --target-dir ../target-sendsync 2>&1 | tail -1)
+(cd sendsync && cargo build --offline --target-dir ../target-sendsync 2>&1 | tail -1 && cargo build --offline --no-default-features --target-dir ../target-sendsync 2>&1 | tail -1)
 java -version 2>&1 | head -1
